@@ -3328,6 +3328,10 @@ class ISLaSolver:
                             existential_formula,
                         )
                         break
+                    except TimeoutError:
+                        # Unsatisfiability could not be shown within the time budget:
+                        # Keep the state.
+                        pass
                     finally:
                         self.start_time = old_start_time
                         self.timeout_seconds = old_timeout_seconds
